@@ -102,12 +102,16 @@ inductive Copy where
 
 /-- copy the object at `src` onto the EXISTING object at `dst`, as cif_value_clone(src, &dst) does: clean `dst`, then read
     `src` -/
-def copyOnto (st : St) (src dst : Ref) : Copy :=
+def copyOnto (rep : Bool) (st : St) (src dst : Ref) : Copy :=
   if src.root = dst.root then
     match getRoot st dst.root with
     | none => .bad
     | some root =>
       if (resolve root src.path).isNone || (resolve root dst.path).isNone then .bad
+      else if rep then
+        match cloneOntoRepaired root src.path dst.path with
+        | some root' => .done (setRoot st dst.root (some root'))
+        | none => .bad
       else if isPrefix dst.path src.path && src.path != dst.path then .uaf
       else
         match cloneOnto root src.path dst.path with
@@ -135,7 +139,7 @@ def normOf (k : Str × Option Str) : Str → Option Str := fun _ => k.2
 def memberRef (r : Ref) (s : Step) : Ref := { r with path := r.path ++ [s] }
 
 /-- set on a map held at `r` (a table value or a packet): shared by tset and pset.  `badKey` = code for a rejected key. -/
-def mapSetOp (st : St) (r : Ref) (key : Str × Option Str) (src : Option Ref) (badKey : Code) : Option (St × String) :=
+def mapSetOp (rep : Bool) (st : St) (r : Ref) (key : Str × Option Str) (src : Option Ref) (badKey : Code) : Option (St × String) :=
   match resolveRef st r with
   | some (.tbl es) =>
     match key.2 with
@@ -160,7 +164,7 @@ def mapSetOp (st : St) (r : Ref) (key : Str × Option Str) (src : Option Ref) (b
           | none => (updateRef st1 target .unk).map (fun st' => (st', "0"))
           | some s =>
             if s = target then some (st1, "0")
-            else match copyOnto st1 s target with
+            else match copyOnto rep st1 s target with
               | .done st' => some (st', "0")
               | .uaf => some (st1, "uaf")
               | .bad => none
@@ -193,7 +197,7 @@ def mapRemOp (st : St) (r : Ref) (key : Str × Option Str) (dst : String) : Opti
   | none => none
 
 /-- one operation: new state and the result text (without the trailing root dump) together with the roots to dump -/
-def step (st : St) (op : List String) : Option (St × String × List Root) :=
+def step (rep : Bool) (st : St) (op : List String) : Option (St × String × List Root) :=
   match op with
   | ["new", s, k] => do
       let r ← parseSlot s; let kind ← k.toNat?
@@ -221,7 +225,7 @@ def step (st : St) (op : List String) : Option (St × String × List Root) :=
         match dst.root with
         | .val _ => pure (setRoot st dst.root (some (clone sv)), "0", [dst.root])
         | _ => none
-      else match copyOnto st src dst with
+      else match copyOnto rep st src dst with
         | .done st' => pure (st', "0", [dst.root])
         | .uaf => pure (st, "uaf", [])
         | .bad => none
@@ -266,7 +270,7 @@ def step (st : St) (op : List String) : Option (St × String × List Root) :=
         | none => do let st' ← updateRef st r cleaned; pure (st', "0", [r.root])
         | some sr =>
           if sr = target then pure (st, "0", [r.root])
-          else match copyOnto st sr target with
+          else match copyOnto rep st sr target with
             | .done st' => pure (st', "0", [r.root])
             | .uaf => pure (st, "uaf", [])
             | .bad => none
@@ -296,7 +300,7 @@ def step (st : St) (op : List String) : Option (St × String × List Root) :=
       pure (st, out, [])
   | ["tset", a, k, s] => do
       let r ← parseRef a; let key ← parseKey k; let src ← parseSrc s
-      let (st', out) ← mapSetOp st r key src INVALID_INDEX
+      let (st', out) ← mapSetOp rep st r key src INVALID_INDEX
       pure (st', out, if out == "uaf" then [] else [r.root])
   | ["trem", a, k, d] => do
       let r ← parseRef a; let key ← parseKey k
@@ -317,7 +321,7 @@ def step (st : St) (op : List String) : Option (St × String × List Root) :=
         else
           -- the names travel with their normalised forms: look the normalisation up by position
           let norm : Str → Option Str := fun s => (keys.find? (fun k => k.1 == s)).bind (·.2)
-          match packetCreate norm (keys.map (·.1)) with
+          match (if rep then packetCreateRepaired norm (keys.map (·.1)) else packetCreate norm (keys.map (·.1))) with
           | .ok es => pure (setRoot st r (some (.tbl es)), "0", [r])
           | .error c => pure (st, codeStr c, [r])
       | _ => none
@@ -330,7 +334,7 @@ def step (st : St) (op : List String) : Option (St × String × List Root) :=
       let r ← parseSlot p; let key ← parseKey k; let src ← parseSrc s
       match r with
       | .pkt _ => do
-        let (st', out) ← mapSetOp st { root := r, path := [] } key src INVALID_ITEMNAME
+        let (st', out) ← mapSetOp rep st { root := r, path := [] } key src INVALID_ITEMNAME
         pure (st', out, if out == "uaf" then [] else [r])
       | _ => none
   | ["prem", p, k, d] => do
@@ -356,11 +360,11 @@ def splitOps (toks : List String) : List (List String) :=
     | t :: ts => if t == "|" then go [] (cur.reverse :: acc) ts else go (t :: cur) acc ts
   (go [] [] toks).filter (fun o => !o.isEmpty)
 
-def run (ops : List (List String)) : Option String := do
+def run (rep : Bool) (ops : List (List String)) : Option String := do
   let mut st := St.init
   let mut out : List String := []
   for op in ops do
-    match step st op with
+    match step rep st op with
     | none => out := "bad" :: out
     | some (st', res, roots) =>
       st := st'
@@ -370,6 +374,11 @@ def run (ops : List (List String)) : Option String := do
 
 def name : String := "val"
 
-def handle : Handler := fun args => run (splitOps args)
+/-- `val @repaired …` runs the model of the code with the repairs proposed for F32 / F33 applied
+    (`cloneOntoRepaired`, `packetCreateRepaired`); the generator adds the flag when VERIF_GG_REPAIRED=1 -/
+def handle : Handler := fun args =>
+  match args with
+  | "@repaired" :: rest => run true (splitOps rest)
+  | _ => run false (splitOps args)
 
 end Driver.Fam.Val
